@@ -87,6 +87,7 @@ PROPS = {
         "assumptions": ["'in use when the erase happened' is read as: the handle's first access returned before erase() was called", "4 fibers x 4/6 operations, lists of <= ~10 elements"],
         "stages": [{"family": "rcu", "flavour": "plain", "target": "C05f", "cases": (150000, 2000000), "maxsec": (20, 200)},
                    {"family": "rcu", "flavour": "plain", "target": "C13b", "cases": (15000, 200000), "maxsec": (25, 250)},
+                   {"family": "rcu", "flavour": "plain", "target": "C12r", "cases": (60000, 800000), "maxsec": (20, 200)},
                    {"family": "rcu", "flavour": "plain", "target": "C05", "cases": (600000, 8000000), "maxsec": (45, 420)}],
     },
     "C09": {
@@ -224,6 +225,8 @@ PROPS = {
                 "thawed writer must finish once handles are released. Exploration over generated (op, freeze point, reader variant, schedule).",
         "assumptions": ["'visible step' granularity = modelled mutex/atomic/cv operations and payload access windows"],
         "stages": [{"family": "c14", "flavour": "plain", "target": "C14", "cases": (500000, 6000000), "maxsec": (40, 400)},
+                   # cow_guarded write handles (commit, cancel with the cancelled handle object kept alive, moves): the next writer must complete
+                   {"family": "lrcow", "flavour": "plain", "target": "C04", "cases": (150000, 2000000), "maxsec": (20, 200)},
                    # real threads: shared handles handed from thread to thread (no fiber model of thread_local / per-thread state), writer must still complete
                    {"family": "rt", "flavour": "tsan", "target": "RTlr", "cases": (3000, 60000), "maxsec": (25, 300), "stochastic": True, "min_nontrivial_frac": 0.5}],
     },
